@@ -31,7 +31,10 @@ def strip_generics(s):
         elif d == 0:
             out.append(c)
         i += 1
-    return ''.join(out).replace('::::', '::')
+    r = ''.join(out).replace('::::', '::')
+    while r.endswith('::'):
+        r = r[:-2]
+    return r
 
 
 class TypeDef:
